@@ -412,6 +412,8 @@ class Gen:
             elif kind == 'F3':
                 if spec.get('peer'):
                     op['fault'] = {'kind': 'F3', 'frac': round(rng.random(), 4)}
+                    if maybe(rng, 0.5):
+                        op['fault']['exc'] = pick(rng, ['TypeError', 'ValueError', 'KeyError', 'RuntimeError', 'AttributeError'])
                     reveal_on = cid
             elif kind == 'F4':
                 if stype != 'stylesheet':
